@@ -359,6 +359,33 @@ func (w *world) forkVersionAt(epoch uint64) eth2p0.Version {
 	return v
 }
 
+// specForkVersion is the fork version the eth2 spec prescribes for a signature of domain `name`
+// over an object of `epoch`, from the harness' own fork table of a production-client world:
+// the fork in effect at the object's epoch, except voluntary exits, which (EIP-7044) are always
+// signed over the Capella fork version once the chain itself is at Deneb or later, whatever
+// epoch the exit message carries.
+func (w *world) specForkVersion(name string, epoch uint64) eth2p0.Version {
+	byEpoch := w.prodForks[0].Version
+	var capella eth2p0.Version
+	var denebEpoch uint64
+	for _, f := range w.prodForks {
+		if f.Epoch <= epoch {
+			byEpoch = f.Version
+		}
+		switch f.Name {
+		case "CAPELLA":
+			capella = f.Version
+		case "DENEB":
+			denebEpoch = f.Epoch
+		}
+	}
+	if name == domExit && w.currentEpoch >= denebEpoch {
+		return capella
+	}
+
+	return byEpoch
+}
+
 // domain is compute_domain(domain_type, fork_version, genesis_validators_root).
 func (w *world) domain(name string, epoch uint64) (eth2p0.Domain, error) {
 	dt, ok := w.domainTypes[name]
@@ -366,6 +393,9 @@ func (w *world) domain(name string, epoch uint64) (eth2p0.Domain, error) {
 		return eth2p0.Domain{}, fmt.Errorf("unknown domain %s", name)
 	}
 	fd := &eth2p0.ForkData{CurrentVersion: w.forkVersionAt(epoch), GenesisValidatorsRoot: w.gvr}
+	if w.prod {
+		fd.CurrentVersion = w.specForkVersion(name, epoch)
+	}
 	if name == domBuilder {
 		// builder domain: genesis fork version, zero genesis validators root, any epoch.
 		fd = &eth2p0.ForkData{CurrentVersion: w.genesisFork}
